@@ -1,9 +1,12 @@
 #!/bin/bash
 # re-evaluate every stored seeded change against the current checks (scratch worktrees, /repo untouched)
 cd "$(dirname "$0")/.." || exit 2
-out=${1:-/tmp/eval_seeded.log}; : > "$out"
+# usage: tools/eval_seeded.sh <log> [props...]
+out=${1:-/tmp/eval_seeded.log}; shift; : > "$out"
+props=${*:-"C14 C15 C16 C19 C20"}
 for d in seeded/*/; do
   id=$(basename "$d"); prop=$(/venv/bin/python -c "import json;print(json.load(open('$d/meta.json'))['property'])")
+  case " $props " in *" $prop "*) ;; *) continue;; esac
   res=$(tools/try_mutant.py "$d/patch.diff" "$prop" 2>&1 | /venv/bin/python -c "
 import json,sys
 try:
